@@ -174,6 +174,8 @@ class CommandResponse(Response):
             try:
                 merge_key = resp.merge_key
             except TypeError:
+                if resp.is_barrier:
+                    self._mergeable.clear()
                 self._untagged.append(resp)
             else:
                 key = (type(resp), merge_key)
@@ -260,6 +262,15 @@ class UntaggedResponse(Response):
 
         """
         raise TypeError(self)
+
+    @property
+    def is_barrier(self) -> bool:
+        """True if responses added after this one must not be merged into
+        responses added before it, e.g. because it changes message sequence
+        numbers.
+
+        """
+        return False
 
     def merge(self: ResponseT, other: ResponseT) -> ResponseT:
         """Return a copy of this response with the other response merged in.
